@@ -131,6 +131,8 @@ func (e *Engine) execInstr(s *State, in ssa.Instruction) []*State {
 			nmw = "true" // map held in a struct field / parameter: trusted non-nil (listed assumption)
 		}
 		e.assert(s, e.oblName(s, in, "nilmap-write"), "nilmap-write", in.Pos(), "assignment to entry in nil map", nmw)
+		// execution continues past the update only when the map was not nil
+		s.assume(not(eq(m.L[0], "0")))
 		e.containerWrite(s, m, e.val(s, x.Value), in)
 		e.checkGuardContents(s, m, in, true)
 		e.mapStore(s, mt, m.L[0], e.val(s, x.Key), e.val(s, x.Value))
